@@ -9,7 +9,7 @@ from ..spec import Z, P
 
 ID = 'C06'
 LEVEL = 'other'
-ENGINE = 'pathsym (z3)'
+ENGINE = 'pathsym (z3); CrossHair 0.0.110 differential as independent second engine on small shapes (quotas in 0..3)'
 FUNCTIONS = ['model.Model.check_stability', 'model.Model.get_num_assignments_projects/get_num_assignments_lecturers',
              'model.Model.get_worst_rank_projects/get_worst_rank_lecturers', 'fileIO.import_model (builds the Model from a file with symbolic quotas)']
 EXPLANATION = (
@@ -45,10 +45,148 @@ def tasks(tier, seed):
                 if s.shape_key() not in seen:
                     seen.add(s.shape_key())
                     shs.append(s)
-    return [{'shape': lpchecks.shape_data(I)} for I in shs]
+    out = [{'shape': lpchecks.shape_data(I)} for I in shs]
+    # second engine: CrossHair differential (real check_stability vs a plain-Python reference) on small corner shapes
+    small = [s for s in shapes.corner_shapes(twosided_only=True) if s.ns <= 2]
+    for I in (small[:2] if tier == 'quick' else small):
+        out.append({'shape': lpchecks.shape_data(I), 'engine': 'crosshair'})
+    return out
+
+
+CH_TEMPLATE = '''
+import sys
+sys.path.insert(0, %(repo)r)
+from typing import List
+from matchingproblems.solver.model import Model, Pair
+
+PREFS = %(prefs)r      # per student: [(project, rank_student, lecturer, rank_lecturer)]
+NP, NL = %(np)d, %(nl)d
+
+
+def build(puq: List[int], luq: List[int]) -> Model:
+    m = Model()
+    m.num_students, m.num_projects, m.num_lecturers = len(PREFS), NP, NL
+    m.proj_lower_quotas = [0] * NP
+    m.proj_upper_quotas = list(puq)
+    m.lec_lower_quotas = [0] * NL
+    m.lec_targets = [0] * NL
+    m.lec_upper_quotas = list(luq)
+    for s, row in enumerate(PREFS):
+        prow = []
+        for (p, rs, l, rl) in row:
+            pr = Pair(s + 1, p, rs)
+            pr.set_lecturer(l)
+            pr.set_lecturer_rank(rl)
+            prow.append(pr)
+        m.pairs.append(prow)
+    return m
+
+
+def reference(puq: List[int], luq: List[int], a: List[int]) -> bool:
+    """no blocking pair, written from the SPA-STL definition; a[s] = position (1-based) or 0"""
+    chosen = [None if a[s] == 0 else PREFS[s][a[s] - 1] for s in range(len(PREFS))]
+    pl = [sum(1 for c in chosen if c is not None and c[0] == j + 1) for j in range(NP)]
+    ll = [sum(1 for c in chosen if c is not None and c[2] == k + 1) for k in range(NL)]
+    for s, row in enumerate(PREFS):
+        for (p, rs, l, rl) in row:
+            cur = chosen[s]
+            if not (cur is None or rs < cur[1]):
+                continue
+            p_under = pl[p - 1] < puq[p - 1]
+            l_under = ll[l - 1] < luq[l - 1]
+            worse_l = any(c is not None and c[2] == l and c[3] > rl for c in chosen)
+            worse_p = any(c is not None and c[0] == p and c[3] > rl for c in chosen)
+            if p_under and l_under:
+                return False
+            if p_under and not l_under and ((cur is not None and cur[2] == l) or worse_l):
+                return False
+            if not p_under and worse_p:
+                return False
+    return True
+
+
+def differential(%(params)s) -> bool:
+    """
+    pre: %(pre)s
+    post: _
+    """
+    puq = [%(puqs)s]
+    luq = [%(luqs)s]
+    a = [%(as_)s]
+    chosen = [None if a[s] == 0 else PREFS[s][a[s] - 1] for s in range(len(PREFS))]
+    for j in range(NP):
+        if sum(1 for c in chosen if c is not None and c[0] == j + 1) > puq[j]:
+            return True
+    for k in range(NL):
+        if sum(1 for c in chosen if c is not None and c[2] == k + 1) > luq[k]:
+            return True
+    m = build(puq, luq)
+    assign = [None if a[s] == 0 else m.pairs[s][a[s] - 1] for s in range(len(PREFS))]
+    got = m.check_stability(assign)
+    return (got is True or got is False) and got == reference(puq, luq, a)
+'''
+
+
+def crosshair_source(I, repo_path):
+    prefs = []
+    for s in range(1, I.ns + 1):
+        row = []
+        for (s2, p, r) in I.pairs():
+            if s2 == s:
+                row.append((p, r, I.lec(p), I.lrank(I.lec(p), s)))
+        prefs.append(row)
+    pu = ['pu%d' % j for j in range(I.np)]
+    lu = ['lu%d' % k for k in range(I.nl)]
+    aa = ['a%d' % s for s in range(I.ns)]
+    pre = ' and '.join(['0 <= %s <= 3' % x for x in pu + lu] + ['0 <= %s <= %d' % (x, len(prefs[i])) for i, x in enumerate(aa)])
+    return CH_TEMPLATE % {'repo': repo_path, 'prefs': prefs, 'np': I.np, 'nl': I.nl,
+                          'params': ', '.join('%s: int' % x for x in pu + lu + aa), 'pre': pre,
+                          'puqs': ', '.join(pu), 'luqs': ', '.join(lu), 'as_': ', '.join(aa)}
+
+
+def crosshair_task(task, res):
+    import os
+    import shutil
+    import subprocess
+    import sys as _sys
+    import tempfile
+    I = lpchecks.shape_from(task['shape'])
+    d = tempfile.mkdtemp(prefix='vf_c06ch_')
+    try:
+        path = os.path.join(d, 'h06.py')
+        with open(path, 'w') as f:
+            f.write(crosshair_source(I, repo.REPO))
+        r = subprocess.run([_sys.executable, '-m', 'crosshair', 'check', '--report_all', '--per_condition_timeout', '120', path],
+                           capture_output=True, text=True, cwd=d, timeout=900)
+        out = (r.stdout + r.stderr).strip()
+    finally:
+        shutil.rmtree(d, ignore_errors=True)
+    res['paths'] = 1
+    res['nontrivial'] = 1
+    if 'Confirmed over all paths' in out:
+        res['obligations'] += 1
+        res['discharged'] += 1
+        res['controls']['crosshair_confirmed'] = 1
+    elif 'error' in out and 'differential(' in out:
+        import re as _re
+        m = _re.search(r'differential\(([^)]*)\)', out)
+        vals = [int(x) for x in _re.findall(r'-?\d+', m.group(1))]
+        puq, luq, a = vals[:I.np], vals[I.np:I.np + I.nl], vals[I.np + I.nl:]
+        J = I.with_numerics([0] * I.np, puq, [0] * I.nl, [0] * I.nl, luq)
+        ass = [0 if a[s] == 0 else [p for (s2, p, _) in I.pairs() if s2 == s + 1][a[s] - 1] for s in range(I.ns)]
+        res['obligations'] += 1
+        res['cex'].append({'tag': 'crosshair/differential', 'what': 'CrossHair counterexample: ' + out.split('\n')[-1][:200],
+                           'data': {'inst': rp.inst_to_data(J), 'assign': ass}})
+    else:
+        res['controls']['crosshair_inconclusive'] = 1   # second engine only; does not affect the verdict
+    res['sample'] = {'engine': 'crosshair', 'shape': task['shape'], 'output': out[-160:]}
+    return res
 
 
 def run_task(task):
+    if task.get('engine') == 'crosshair':
+        return crosshair_task(task, {'obligations': 0, 'discharged': 0, 'unknown': 0, 'cex': [], 'queries': 0, 'solver_time': 0.0,
+                                     'paths': 0, 'nontrivial': 0, 'controls': {}})
     I = lpchecks.shape_from(task['shape'])
     res = {'obligations': 0, 'discharged': 0, 'unknown': 0, 'cex': [], 'queries': 0, 'solver_time': 0.0,
            'paths': 0, 'nontrivial': 0, 'controls': {}}
@@ -163,6 +301,8 @@ def describe_task(t):
 
 
 def task_cost(t):
+    if t.get('engine') == 'crosshair':
+        return 10 ** 6
     sh = t['shape']
     c = 1
     for gs in sh['prefs']:
